@@ -62,6 +62,11 @@ T_PID, S_PID, SELF_PID = 4242, 4343, 4444
 U64 = 1 << 64
 INF = U64 - 1
 FINDING_INELIGIBLE = "C18-ineligible-oserror"
+FINDING_HUGE_CPU = "C18-huge-cpu-overflowerror"
+
+
+def _fits_c_long(v):
+    return -2 ** 63 <= v < 2 ** 63
 
 # ------------------------------------------------------------------------------ translator
 
@@ -163,24 +168,21 @@ def _rlimit_facts(tree):
     return {"pid0": pid0, "pair": pair}
 
 
-def _front_facts(tree):
-    m = _methods(tree, "Process")
-    out = {}
-    # ionice: `if ioclass is None: if value is not None: raise ValueError`
-    fn = m["ionice"]
-    vwc = False
-    for st in fn.body:
+def _front_ionice(tree):
+    """`if ioclass is None: if value is not None: raise ValueError` in Process.ionice (total: False when absent)."""
+    fn = _methods(tree, "Process")["ionice"]
+    for st in ast.walk(fn):
         if isinstance(st, ast.If) and isinstance(st.test, ast.Compare) and extract.dotted(st.test.left) == "ioclass" \
                 and isinstance(st.test.ops[0], ast.Is):
             for s2 in st.body:
                 if isinstance(s2, ast.If) and isinstance(s2.test, ast.Compare) and extract.dotted(s2.test.left) == "value" \
                         and isinstance(s2.test.ops[0], ast.IsNot) and _raises(s2, "ValueError"):
-                    vwc = True
-            break
-    else:
-        raise NotRecognised("shape of Process.ionice")
-    out["value_without_class"] = vwc
-    fn = m["cpu_affinity"]
+                    return True
+    return False
+
+
+def _front_affinity_top(tree):
+    fn = _methods(tree, "Process")["cpu_affinity"]
     top = None
     for st in fn.body:
         if isinstance(st, ast.If) and isinstance(st.test, ast.Compare) and extract.dotted(st.test.left) == "cpus" \
@@ -188,72 +190,85 @@ def _front_facts(tree):
             top = st
     if top is None:
         raise NotRecognised("shape of Process.cpu_affinity")
+    return top
+
+
+def _front_get_sorted(tree):
+    """The get branch returns sorted(set(native result)) (total: False for any other expression)."""
+    top = _front_affinity_top(tree)
     ret = [s for s in top.body if isinstance(s, ast.Return)]
-    if len(ret) != 1:
-        raise NotRecognised("get branch of cpu_affinity")
+    if len(ret) != 1 or ret[0].value is None:
+        return False
     src = extract.unparse(ret[0].value).replace(" ", "")
-    if src == "sorted(set(self._proc.cpu_affinity_get()))":
-        out["get_sorted_set"] = True
-    elif src == "self._proc.cpu_affinity_get()":
-        out["get_sorted_set"] = False
-    else:
-        raise NotRecognised("get branch of cpu_affinity: %s" % src)
+    return src in ("sorted(set(self._proc.cpu_affinity_get()))", "sorted(list(set(self._proc.cpu_affinity_get())))")
+
+
+def _front_set_dedup(tree):
+    """The set branch hands list(set(cpus)) to the platform layer (total: False for any other argument)."""
+    top = _front_affinity_top(tree)
     calls = extract.calls_in(ast.Module(body=top.orelse, type_ignores=[]), "cpu_affinity_set")
     if len(calls) != 1 or len(calls[0].args) != 1:
-        raise NotRecognised("set branch of cpu_affinity")
-    arg = extract.unparse(calls[0].args[0]).replace(" ", "")
-    if arg == "list(set(cpus))":
-        out["set_dedup"] = True
-    elif arg in ("cpus", "list(cpus)"):
-        out["set_dedup"] = False
-    else:
-        raise NotRecognised("argument of cpu_affinity_set: %s" % arg)
+        return False
+    return extract.unparse(calls[0].args[0]).replace(" ", "") in ("list(set(cpus))", "sorted(set(cpus))")
+
+
+_COUNT_SHAPES = ("tuple(range(len(cpu_times(percpu=True))))", "list(range(len(cpu_times(percpu=True))))",
+                 "range(len(cpu_times(percpu=True)))")
+
+
+def _request_shape(value):
+    """(empty_range, empty_count) for the expression assigned to `cpus` in the empty-list branch. Total: a request
+    whose size is not a literal (range(os.cpu_count()), range(len(os.sched_getaffinity(0))), …) is reported as
+    `some 0` — a request naming no CPU the model knows about — so that the obligation fails with the new value."""
+    v = extract.unparse(value).replace(" ", "").replace('"', "'")
+    mm = re.fullmatch(r"(?:list\(|tuple\()?range\((\d+)\)\)?", v)
+    if v in _COUNT_SHAPES:
+        return None, True
+    if mm:
+        return int(mm.group(1)), False
+    if "_get_eligible_cpus" in v:
+        return None, False
+    return 0, False
+
+
+def _front_empty(tree):
+    """What cpu_affinity([]) asks the platform layer for on Linux: {"empty_range": n | None, "empty_count": bool}."""
+    top = _front_affinity_top(tree)
     empty = None
     for s in top.orelse:
         if isinstance(s, ast.If) and isinstance(s.test, ast.UnaryOp) and isinstance(s.test.op, ast.Not) \
                 and extract.dotted(s.test.operand) == "cpus":
             empty = s
+        elif isinstance(s, ast.If) and extract.unparse(s.test).replace(" ", "") in ("len(cpus)==0", "cpus==[]"):
+            empty = s
     if empty is None or not empty.body:
-        raise NotRecognised("empty-list branch of cpu_affinity")
+        # no empty-list branch at all: the empty list goes to the platform layer as it is
+        return {"empty_range": 0, "empty_count": False}
     first = empty.body[0]
-    count_shapes = ("tuple(range(len(cpu_times(percpu=True))))", "list(range(len(cpu_times(percpu=True))))",
-                    "range(len(cpu_times(percpu=True)))")
-    out["empty_count"] = False
-    if len(empty.body) == 1 and isinstance(first, ast.Assign) and extract.dotted(first.targets[0]) == "cpus":
-        # no platform test: one request shape for every platform (seeded C18-2)
-        v = extract.unparse(first.value).replace(" ", "").replace('"', "'")
-        mm = re.fullmatch(r"(?:list\(|tuple\()?range\((\d+)\)\)?", v)
-        if v in count_shapes:
-            out["empty_count"] = True
-            out["empty_range"] = None
-        elif mm:
-            out["empty_range"] = int(mm.group(1))
+
+    def last_assign(stmts):
+        a = [x for x in stmts if isinstance(x, ast.Assign) and extract.dotted(x.targets[0]) == "cpus"]
+        return a[-1] if a else None
+    if isinstance(first, ast.If):
+        t = extract.unparse(first.test).replace(" ", "")
+        if t in ("hasattr(self._proc,'_get_eligible_cpus')", 'hasattr(self._proc,"_get_eligible_cpus")'):
+            return {"empty_range": None, "empty_count": False}
+        if t == "LINUX":
+            a = last_assign(first.body)
+        elif t == "notLINUX":
+            a = last_assign(first.orelse)
         else:
-            raise NotRecognised("empty-list request: %s" % v)
-        return out
-    if not isinstance(first, ast.If):
-        raise NotRecognised("empty-list branch of cpu_affinity")
-    t = extract.unparse(first.test).replace(" ", "")
-    if t in ("hasattr(self._proc,'_get_eligible_cpus')", 'hasattr(self._proc,"_get_eligible_cpus")'):
-        if not extract.calls_in(first, "_get_eligible_cpus"):
-            raise NotRecognised("empty-list branch does not call _get_eligible_cpus")
-        out["empty_range"] = None
-    elif t == "LINUX":
-        a = first.body[-1]
-        if not (isinstance(a, ast.Assign) and extract.dotted(a.targets[0]) == "cpus"):
-            raise NotRecognised("LINUX empty-list branch")
-        v = extract.unparse(a.value).replace(" ", "").replace('"', "'")
-        mm = re.fullmatch(r"(?:list\(|tuple\()?range\((\d+)\)\)?", v)
-        if v in count_shapes:
-            out["empty_count"] = True
-            out["empty_range"] = None
-        elif mm:
-            out["empty_range"] = int(mm.group(1))
-        else:
-            raise NotRecognised("LINUX empty-list branch value: %s" % v)
-    else:
-        raise NotRecognised("empty-list branch test: %s" % t)
-    return out
+            a = last_assign(first.body) or last_assign(first.orelse)
+        if a is None:
+            return {"empty_range": 0, "empty_count": False}
+        r, c = _request_shape(a.value)
+        return {"empty_range": r, "empty_count": c}
+    a = last_assign(empty.body)
+    if a is None:
+        return {"empty_range": 0, "empty_count": False}
+    # no platform test: one request shape for every platform (seeded C18-2)
+    r, c = _request_shape(a.value)
+    return {"empty_range": r, "empty_count": c}
 
 
 def _c_facts(src):
@@ -357,31 +372,106 @@ def _affinity_get_proto(src):
     return clears, 2
 
 
-def _einval_value_error(tree):
-    """Does cpu_affinity_set raise ValueError for the kernel's EINVAL once its diagnosis loop found nothing?"""
+def _affinity_set_shape(tree):
+    """cpu_affinity_set's except clause. Total: {"einval_ve": bool, "overflow": bool}.
+    einval_ve: after the diagnosis loop an OSError (the kernel's EINVAL) is raised as ValueError.
+    overflow:  OverflowError (a CPU number that does not fit a C long) is caught AND sent through the diagnosis."""
     fn = _methods(tree, "Process")["cpu_affinity_set"]
+    out = {"einval_ve": False, "overflow": False}
     handlers = [h for n in ast.walk(fn) if isinstance(n, ast.Try) for h in n.handlers]
-    if len(handlers) != 1:
-        raise NotRecognised("cpu_affinity_set: expected one except clause")
+    if len(handlers) != 1 or handlers[0].type is None:
+        return out
     h = handlers[0]
-    if not (len(h.body) == 2 and isinstance(h.body[0], ast.If) and isinstance(h.body[1], ast.Raise) and h.body[1].exc is None):
-        raise NotRecognised("cpu_affinity_set: shape of the except clause")
-    t = extract.unparse(h.body[0].test).replace(" ", "")
-    if t != "isinstance(err,ValueError)orerr.errno==errno.EINVAL":
-        raise NotRecognised("cpu_affinity_set: diagnosis condition %s" % t)
-    blk = h.body[0].body
+    caught = {extract.dotted(n) for n in ast.walk(h.type) if isinstance(n, (ast.Name, ast.Attribute))}
+    ifs = [st for st in h.body if isinstance(st, ast.If)]
+    if not ifs:
+        return out
+    t = extract.unparse(ifs[0].test).replace(" ", "")
+    diag_overflow = bool(re.search(r"isinstance\(err,\(?[^)]*\bOverflowError\b", t))
+    out["overflow"] = "OverflowError" in caught and diag_overflow
+    if "err.errno==errno.EINVAL" not in t:
+        return out
+    blk = ifs[0].body
     loops = [i for i, st in enumerate(blk) if isinstance(st, ast.For)]
     if len(loops) != 1:
-        raise NotRecognised("cpu_affinity_set: diagnosis loop")
-    rest = blk[loops[0] + 1:]
-    if not rest:
+        return out
+    for st in blk[loops[0] + 1:]:
+        if isinstance(st, ast.If) and not st.orelse \
+                and extract.unparse(st.test).replace(" ", "") in ("isinstance(err,OSError)", "notisinstance(err,ValueError)",
+                                                                   "notisinstance(err,(ValueError,OverflowError))") \
+                and st.body and isinstance(st.body[-1], ast.Raise) and _raises(st, "ValueError"):
+            out["einval_ve"] = True
+    return out
+
+
+def _strip_c_comments(body):
+    body = re.sub(r"/\*.*?\*/", "", body, flags=re.S)
+    return re.sub(r"//[^\n]*", "", body)
+
+
+def _setter_checks(src, func, call_re):
+    """Does the native setter notice a failed system call? True for `r = call(…); if (r == -1 | r != 0 | r < 0 | r)
+    return PyErr_SetFromErrno…` and for `if (call(…)) {return PyErr_SetFromErrno…}`; False for anything else (total)."""
+    body = _strip_c_comments(_c_function(src, func))
+    calls = list(re.finditer(call_re, body))
+    if not calls:
         return False
-    if len(rest) == 1 and isinstance(rest[0], ast.If) and not rest[0].orelse \
-            and extract.unparse(rest[0].test).replace(" ", "") in ("isinstance(err,OSError)", "notisinstance(err,ValueError)") \
-            and isinstance(rest[0].body[-1], ast.Raise) and _raises(rest[0], "ValueError") \
-            and all(isinstance(x, (ast.Assign, ast.Raise)) for x in rest[0].body):
-        return True
-    raise NotRecognised("cpu_affinity_set: statements after the diagnosis loop")
+    c = calls[-1]
+    head, tail = body[:c.start()], body[c.end():]
+    m = re.search(r"(\w+)\s*=\s*(?:\([^()]*\)\s*)?$", head)
+    if m:
+        v = re.escape(m.group(1))
+        return bool(re.search(r"if\s*\(\s*(?:%s\s*==\s*-1|%s\s*!=\s*0|%s\s*<\s*0|%s)\s*\)\s*\{?\s*return\s+PyErr_SetFromErrno" % (v, v, v, v), tail))
+    if re.search(r"if\s*\(\s*$", head):
+        return bool(re.match(r"[^;{]*\)\s*(?:(?:!=\s*0|==\s*-1|<\s*0)\s*)?\)\s*\{?\s*return\s+PyErr_SetFromErrno", tail, re.S))
+    return False
+
+
+def _aff_loop(src):
+    """The sizing loop of psutil_proc_cpu_affinity_get. Total: (initBits, retry code, (mul, add))."""
+    body = _strip_c_comments(_c_function(src, "psutil_proc_cpu_affinity_get"))
+    calls = list(re.finditer(r"\bsched_getaffinity\s*\(", body))
+    if not calls:
+        return 0, 3, (1, 0)
+    head, tail = body[:calls[0].start()], body[calls[0].end():]
+    tail = tail.split("PyList_New")[0]
+    init = 0
+    m = re.search(r"\bncpus\s*=\s*([^;]+);", head)
+    if m:
+        e = re.sub(r"\s+", "", m.group(1))
+        if e in ("sizeof(unsignedlong)*CHAR_BIT", "CHAR_BIT*sizeof(unsignedlong)", "NCPUBITS", "__NCPUBITS"):
+            init = 64
+        elif re.fullmatch(r"\d+", e):
+            init = int(e)
+    m = re.search(r"if\s*\(\s*errno\s*(!=|==)\s*EINVAL\s*\)\s*\{?\s*return\s+PyErr_SetFromErrno", tail)
+    if m:
+        retry = 0 if m.group(1) == "!=" else 1
+    elif re.search(r"return\s+PyErr_SetFromErrno", tail):
+        retry = 3
+    else:
+        retry = 2
+    grow = (1, 0)
+    for m in re.finditer(r"\bncpus\s*(=|\*=|\+=|<<=)\s*([^;]+);|\bncpus\s*\+\+\s*;|\+\+\s*ncpus\s*;", tail):
+        if m.group(1) is None:
+            grow = (1, 1)
+            continue
+        op_, e = m.group(1), re.sub(r"\s+", "", m.group(2))
+        mm = None
+        if op_ == "=" and (mm := re.fullmatch(r"ncpus\*(\d+)|(\d+)\*ncpus", e)):
+            grow = (int(mm.group(1) or mm.group(2)), 0)
+        elif op_ == "=" and (mm := re.fullmatch(r"ncpus\+(\d+)|(\d+)\+ncpus", e)):
+            grow = (1, int(mm.group(1) or mm.group(2)))
+        elif op_ == "=" and (mm := re.fullmatch(r"ncpus<<(\d+)", e)):
+            grow = (2 ** int(mm.group(1)), 0)
+        elif op_ == "*=" and re.fullmatch(r"\d+", e):
+            grow = (int(e), 0)
+        elif op_ == "+=" and re.fullmatch(r"\d+", e):
+            grow = (1, int(e))
+        elif op_ == "<<=" and re.fullmatch(r"\d+", e):
+            grow = (2 ** int(e), 0)
+        else:
+            grow = (1, 0)
+    return init, retry, grow
 
 
 def facts(snap, F):
@@ -403,7 +493,9 @@ def facts(snap, F):
     cf = lambda: get("c", lambda: _c_facts(snap.source("arch/linux/proc.c")))  # noqa: E731
     ion = lambda: get("ion", lambda: _ionice_set_facts(linux()))  # noqa: E731
     rl = lambda: get("rl", lambda: _rlimit_facts(linux()))  # noqa: E731
-    fr = lambda: get("fr", lambda: _front_facts(init()))  # noqa: E731
+    fe = lambda: get("fe", lambda: _front_empty(init()))  # noqa: E731
+    shape = lambda: get("shape", lambda: _affinity_set_shape(linux()))  # noqa: E731
+    loop = lambda: get("loop", lambda: _aff_loop(procc()))  # noqa: E731
 
     posix = lambda: get("posix", lambda: snap.source("_psutil_posix.c"))  # noqa: E731
     procc = lambda: get("procc", lambda: snap.source("arch/linux/proc.c"))  # noqa: E731
@@ -422,7 +514,7 @@ def facts(snap, F):
               "psutil_proc_cpu_affinity_get executes `errno = 0;` before sched_getaffinity(2)")
     F.try_add("affinityGetErrTest", "Nat", lambda: extract.lean_nat(ag()[1]),
               "success test of sched_getaffinity(2): 2 = the return value alone (`== 0` -> break), errno read only after a failure")
-    F.try_add("affinityEinvalRaisesValueError", "Bool", lambda: extract.lean_bool(_einval_value_error(linux())),
+    F.try_add("affinityEinvalRaisesValueError", "Bool", lambda: extract.lean_bool(shape()["einval_ve"]),
               "cpu_affinity_set raises ValueError for the kernel's EINVAL when its diagnosis loop finds no offending CPU (fixes/C18-ineligible-valueerror.diff); false = EINVAL is passed on as OSError")
     F.try_add("ioprioClassShift", "Nat", lambda: extract.lean_nat(cf()[0]),
               "IOPRIO_CLASS_SHIFT of psutil/arch/linux/proc.c")
@@ -450,16 +542,34 @@ def facts(snap, F):
               "`len(limits) != …` in _pslinux.Process.rlimit")
     F.try_add("rlimitRefusesPid0", "Bool", lambda: extract.lean_bool(rl()["pid0"]),
               "_pslinux.Process.rlimit raises ValueError for PID 0")
-    F.try_add("ioniceValueWithoutClassRaises", "Bool", lambda: extract.lean_bool(fr()["value_without_class"]),
+    F.try_add("ioniceValueWithoutClassRaises", "Bool", lambda: extract.lean_bool(_front_ionice(init())),
               "Process.ionice(value=…) without ioclass raises ValueError")
-    F.try_add("emptyAffinityRange", "Option Nat", lambda: extract.lean_opt(fr()["empty_range"], extract.lean_nat),
+    F.try_add("emptyAffinityRange", "Option Nat", lambda: extract.lean_opt(fe()["empty_range"], extract.lean_nat),
               "cpu_affinity([]) on Linux: `some n` = asks the kernel for CPUs 0..n-1; `none` = uses _get_eligible_cpus() (the current mask of /proc/pid/status)")
-    F.try_add("emptyAffinityUsesStatCount", "Bool", lambda: extract.lean_bool(fr()["empty_count"]),
+    F.try_add("emptyAffinityUsesStatCount", "Bool", lambda: extract.lean_bool(fe()["empty_count"]),
               "cpu_affinity([]) on Linux asks for range(len(cpu_times(percpu=True))): CPUs 0..N-1, N = number of cpuN lines of /proc/stat (misses eligible CPUs with id >= N: offline CPU in the middle, virtualised /proc/stat)")
-    F.try_add("affinityGetSortedSet", "Bool", lambda: extract.lean_bool(fr()["get_sorted_set"]),
+    F.try_add("affinityGetSortedSet", "Bool", lambda: extract.lean_bool(_front_get_sorted(init())),
               "cpu_affinity() returns sorted(set(...)) of the native result")
-    F.try_add("affinitySetDedup", "Bool", lambda: extract.lean_bool(fr()["set_dedup"]),
+    F.try_add("affinitySetDedup", "Bool", lambda: extract.lean_bool(_front_set_dedup(init())),
               "cpu_affinity(cpus) hands list(set(cpus)) to the platform layer")
+    F.try_add("affinityOverflowRaisesValueError", "Bool", lambda: extract.lean_bool(shape()["overflow"]),
+              "cpu_affinity_set catches the OverflowError of PyLong_AsLong (a CPU number that does not fit a C long) and sends it through its diagnosis loop, which raises ValueError (fixes/C18-affinity-overflow-valueerror.diff); false = it propagates as OverflowError")
+    F.try_add("setpriorityChecksRetval", "Bool",
+              lambda: extract.lean_bool(_setter_checks(posix(), "psutil_posix_setpriority", r"\bsetpriority\s*\(")),
+              "psutil_posix_setpriority tests the return value of setpriority(2) and raises OSError from errno")
+    F.try_add("ioprioSetChecksRetval", "Bool",
+              lambda: extract.lean_bool(_setter_checks(procc(), "psutil_proc_ioprio_set", r"\bioprio_set\s*\(")),
+              "psutil_proc_ioprio_set tests the return value of ioprio_set(2) and raises OSError from errno")
+    F.try_add("affinitySetChecksRetval", "Bool",
+              lambda: extract.lean_bool(_setter_checks(procc(), "psutil_proc_cpu_affinity_set", r"\bsched_setaffinity\s*\(")),
+              "psutil_proc_cpu_affinity_set tests the return value of sched_setaffinity(2) and raises OSError from errno")
+    F.try_add("affinityGetInitBits", "Nat", lambda: extract.lean_nat(loop()[0]),
+              "psutil_proc_cpu_affinity_get: CPUs in the first mask it tries (`sizeof(unsigned long) * CHAR_BIT` = 64; 0 = not recognised)")
+    F.try_add("affinityGetRetryTest", "Nat", lambda: extract.lean_nat(loop()[1]),
+              "which failures of sched_getaffinity(2) are retried with a larger mask: 0 = only EINVAL (`if (errno != EINVAL) return error`), 1 = everything but EINVAL (test flipped), 2 = every failure (no test), 3 = none")
+    F.try_add("affinityGetGrowth", "Nat × Nat",
+              lambda: "(%s, %s)" % tuple(extract.lean_nat(x) for x in loop()[2]),
+              "(mul, add): the next mask has `ncpus * mul + add` CPUs; (2, 0) = doubling, (1, 0) = the mask never grows")
 
 
 # ------------------------------------------------------------------------------ simulated kernel
@@ -1341,6 +1451,16 @@ def judge(ctx, res, hist, i, impl, m, live=False):
                     and impl["procs"] == spec["procs"] and impl == model \
                     and any(f.get("id") == FINDING_INELIGIBLE for f in ctx.findings):
                 fid = FINDING_INELIGIBLE
+                res.known_seen[fid] = res.known_seen.get(fid, 0) + 1
+            # region of C18-huge-cpu-overflowerror: a CPU list with a number outside the C long range, for which the
+            # property promises ValueError; the ONLY deviation tolerated is OverflowError with the kernel untouched,
+            # and only where the model (fact affinityOverflowRaisesValueError = false) predicts exactly that
+            elif req["kind"] == "cpu_affinity" and req.get("cpus") and spec["out"].get("exc") == "ValueError" \
+                    and any(not _fits_c_long(v) for v in req["cpus"]) \
+                    and impl["out"] == {"kind": "exc", "exc": "OverflowError"} \
+                    and impl["procs"] == spec["procs"] and impl == model \
+                    and any(f.get("id") == FINDING_HUGE_CPU for f in ctx.findings):
+                fid = FINDING_HUGE_CPU
                 res.known_seen[fid] = res.known_seen.get(fid, 0) + 1
             res.disagree("spec", inp, impl, model, spec,
                          note="op %d: implementation differs from what the property promises" % i, finding=fid)
